@@ -172,13 +172,13 @@ Slots(ctor) ==
     [] ctor = "set_fan_mode" ->
          <<<<"fan_mode", FanModeArg>>,
            <<"src", <<Vb("src1", 1, T), Vb("src0", 0, T)>>>>,
-           <<"seqn", <<Va>> \o GpAll(<<Vi("q5", 5, T), Vs("qs", "018", T)>>, "seqn") \o <<Vi("q0", 0, T), Vi("q256", 256, F)>>>>,
+           <<"seqn", <<Va>> \o GpAll(<<Vi("q5", 5, T), Vs("qs", "018", T)>>, "seqn") \o <<Vi("q0", 0, T), Gp(Vi("q256", 256, F), "seqn")>>>>,
            <<"idx", <<Va, Vs("i63", "63", T), Vs("i01", "01", F)>>>>>>
     [] ctor = "set_fan_param" ->
          <<<<"param_id", <<Vs("p3F", "3F", T), Vs("p75", "75", T), Vs("pZZ", "ZZ", F), Vs("p00", "00", F)>>>>,
            <<"value", <<Vi("v5", 5, T), Vi("v0", 0, T), Vi("vmax", 2147483647, F), Vs("vstr", "05", F), Vi("vneg", -1, F)>>>>>>
     [] ctor = "set_bypass_position" ->
-         <<<<"bypass_position", <<Va, Vn("pnone", T), Vr("p0", 0, T), Vr("p100", 100, T), Gp(Vr("p50", 50, T), "frac"), Gp(Vr("p29", 29, T), "frac"), Vr("p101", 101, F), Vr("pneg", -50, F)>>>>,
+         <<<<"bypass_position", <<Va, Vn("pnone", T), Vr("p0", 0, T), Vr("p100", 100, T), Gp(Vr("p50", 50, T), "frac"), Gp(Vr("p29", 29, T), "frac"), Gp(Vr("p101", 101, F), "frac"), Vr("pneg", -50, F)>>>>,
            <<"bypass_mode", <<Va, Vs("mauto", "auto", T), Vs("moff", "off", T), Vs("mon", "on", T), Vs("mbad", "open", F)>>>>,
            <<"src", <<Vb("src1", 1, T), Vb("src0", 0, T)>>>>>>
     [] OTHER -> <<>>
